@@ -60,3 +60,11 @@ Theorem c03_tie_since_text : forall vers,
   | _ => None
   end.
 Proof. exact tie_since_text. Qed.
+(* what is shown for a name the database knows is the notes assembly of output_algorithm() as it reads now (T1c translation: the loop over the three levels, the
+   optional notes of each component, the "available since" text), for every entry *)
+Theorem c03_tie_alg_texts_known : forall e,
+  map (fun p => (level_text (fst p), snd p)) (known_texts e) = src_alg_texts_known e (since_text (versions e)).
+Proof. exact tie_alg_texts_known. Qed.
+Theorem c03_alg_texts_known_texts : forall d cat name e,
+  str_is_blank (lookup_name cat name) = false -> db_get d cat (lookup_name cat name) = Some e -> alg_texts d cat name = Some (known_texts e).
+Proof. exact alg_texts_known_texts. Qed.
